@@ -151,43 +151,66 @@ theorem toGenMount_noprop (a : NApi.Adjustment) (h : a.mounts.all noPropagation 
   obtain ⟨x, hx, rfl⟩ := List.mem_map.1 hm
   exact List.all_eq_true.1 h x hx
 
+theorem gRemovals_map' {α ε ε' : Type} {key : α → Str} {rawKey : ε → Str} {f : ε' → ε} {l : List α} {L : List ε'} :
+    gRemovals key rawKey l (L.map f) = gRemovals key (fun e => rawKey (f e)) l L := by
+  simp [gRemovals, List.foldl_map]
+
+theorem gSets_map' {α ε ε' : Type} {key : α → Str} {rawKey : ε → Str} {conv : ε → α} {f : ε' → ε}
+    {l : List α} {L : List ε'} :
+    gSets key rawKey conv l (L.map f) = gSets key (fun e => rawKey (f e)) (fun e => conv (f e)) l L := by
+  simp [gSets, List.foldl_map]
+
+/-- **the mount list after ANY successful `AdjustMounts`** (propagation options allowed) -/
+theorem mounts_apply_mounts (hp : Str → Str) (ms : List Oci.Mount) (rootfs : Str) (a : NApi.Adjustment)
+    (mp : List Oci.Mount × Str) (hn : NodupKeys Oci.Mount.destination ms)
+    (h : Mounts.apply hp ms rootfs (toGen a).mounts = .ok mp) : mp.1 = mntG ms a := by
+  unfold Mounts.apply at h
+  unfold mntG
+  rw [toGen_mounts] at h
+  cases hm : a.mounts with
+  | nil => rw [hm] at h; simp at h; cases h; simp
+  | cons m0 r0 =>
+    rw [← hm]
+    have hne : (a.mounts.map toGenMount).isEmpty = false := by rw [hm]; rfl
+    have hne' : ¬ a.mounts = [] := by rw [hm]; simp
+    simp only [hne, Bool.false_eq_true, if_false] at h
+    simp only [hne', if_false]
+    split at h
+    · rename_i st hst
+      cases h
+      have e := Mounts.sets_mounts _ hst
+      simp only [Mounts.removals_eq] at e
+      simp only
+      rw [e, gRemovals_map', gSets_map']
+      congr 1
+      exact gTwoPass_eq Oci.Mount.destination (fun m : NApi.Mount => m.destination) mntConv (fun _ _ => rfl) a.mounts hn
+    · cases h
+
 /-- **`AdjustMounts` without propagation options**: succeeds, rootfs propagation untouched,
     mount list = `mntG`. -/
 theorem mounts_apply_noprop (hp : Str → Str) (ms : List Oci.Mount) (rootfs : Str) (a : NApi.Adjustment)
     (hn : NodupKeys Oci.Mount.destination ms) (h : a.mounts.all noPropagation = true) :
     Mounts.apply hp ms rootfs (toGen a).mounts = .ok (mntG ms a, rootfs) := by
-  unfold Mounts.apply mntG
-  rw [toGen_mounts]
-  cases hm : a.mounts with
-  | nil => simp
-  | cons m0 r0 =>
-    rw [← hm]
-    have hne : (a.mounts.map toGenMount).isEmpty = false := by rw [hm]; rfl
-    have hne' : ¬ a.mounts = [] := by rw [hm]; simp
-    simp only [hne, Bool.false_eq_true, if_false, hne']
-    obtain ⟨st', h1, h2⟩ := sets_noprop hp (a.mounts.map toGenMount)
-      { mounts := Mounts.removals ms (a.mounts.map toGenMount), rootfs := rootfs, prop := [] } rfl
-      (toGenMount_noprop a h)
-    rw [h1]
-    simp only
-    have e := Mounts.sets_mounts _ h1
-    simp only [Mounts.removals_eq] at e
-    rw [e, h2]
-    have : gSets Oci.Mount.destination Api.Mount.destination Api.Mount.toOCI
-        (gRemovals Oci.Mount.destination Api.Mount.destination ms (a.mounts.map toGenMount))
-        (a.mounts.map toGenMount) =
-        twoPass Oci.Mount.destination (fun m : NApi.Mount => m.destination) mntConv ms a.mounts := by
-      rw [gRemovals_map', gSets_map']
-      exact gTwoPass_eq Oci.Mount.destination (fun m : NApi.Mount => m.destination) mntConv (fun _ _ => rfl) a.mounts hn
-    rw [this]
-where
-  gRemovals_map' {α ε ε' : Type} {key : α → Str} {rawKey : ε → Str} {f : ε' → ε} {l : List α} {L : List ε'} :
-      gRemovals key rawKey l (L.map f) = gRemovals key (fun e => rawKey (f e)) l L := by
-    simp [gRemovals, List.foldl_map]
-  gSets_map' {α ε ε' : Type} {key : α → Str} {rawKey : ε → Str} {conv : ε → α} {f : ε' → ε}
-      {l : List α} {L : List ε'} :
-      gSets key rawKey conv l (L.map f) = gSets key (fun e => rawKey (f e)) (fun e => conv (f e)) l L := by
-    simp [gSets, List.foldl_map]
+  have key : ∃ mp, Mounts.apply hp ms rootfs (toGen a).mounts = .ok mp ∧ mp.2 = rootfs := by
+    unfold Mounts.apply
+    rw [toGen_mounts]
+    cases hm : a.mounts with
+    | nil => exact ⟨(ms, rootfs), by simp, rfl⟩
+    | cons m0 r0 =>
+      rw [← hm]
+      have hne : (a.mounts.map toGenMount).isEmpty = false := by rw [hm]; rfl
+      simp only [hne, Bool.false_eq_true, if_false]
+      obtain ⟨st', h1, h2⟩ := sets_noprop hp (a.mounts.map toGenMount)
+        { mounts := Mounts.removals ms (a.mounts.map toGenMount), rootfs := rootfs, prop := [] } rfl
+        (toGenMount_noprop a h)
+      rw [h1]
+      exact ⟨_, rfl, h2⟩
+  obtain ⟨mp, h1, h2⟩ := key
+  rw [h1]
+  have := mounts_apply_mounts hp ms rootfs a mp hn h1
+  obtain ⟨m, r⟩ := mp
+  simp only at this h2
+  rw [this, h2]
 
 /-! ### distinct keys are preserved -/
 
